@@ -33,6 +33,13 @@ SK = {
     'model-two-versions': ("SELECT * FROM {A}.tbl1 AS t JOIN {P}.pred2.1 AS m1 JOIN {P}.pred2.2 AS m2", {'int1': {'tbl1'}}, [('proj', ['pred2', '1']), ('proj', ['pred2', '2'])]),
     'model-version-and-plain': ("SELECT * FROM {A}.tbl1 AS t JOIN {M}.pred AS m1 JOIN {M}.pred.7 AS m2", {'int1': {'tbl1'}}, [('mindsdb', ['pred']), ('mindsdb', ['pred', '7'])]),
     'model-join-order-expr': ("SELECT t.a, m.p FROM {A}.tbl1 AS t JOIN {M}.pred AS m ORDER BY lower(t.s), 1 LIMIT 2", {'int1': {'tbl1'}}, [('mindsdb', ['pred'])]),
+    'two-models-partition-sizes': ("SELECT * FROM {A}.tbl1 AS t JOIN {M}.pred AS m1 JOIN {P}.pred2 AS m2 USING m1.partition_size=10, m2.partition_size=20",
+                                   {'int1': {'tbl1'}}, [('mindsdb', ['pred']), ('proj', ['pred2'])]),
+    'two-models-partition-global-and-own': ("SELECT * FROM {A}.tbl1 AS t JOIN {M}.pred AS m1 JOIN {P}.pred2 AS m2 USING partition_size=10, m2.partition_size=7",
+                                            {'int1': {'tbl1'}}, [('mindsdb', ['pred']), ('proj', ['pred2'])]),
+    'cte-named-like-table': ("WITH tbl2 AS (SELECT * FROM {A}.tbl1) SELECT * FROM {B}.tbl2", {'int1': {'tbl1'}, 'int2': {'tbl2'}}, []),
+    'cte-named-like-table-join': ("WITH tbl2 AS (SELECT a, id FROM {A}.tbl1) SELECT * FROM tbl2 JOIN {B}.tbl2 AS u ON tbl2.id = u.id", {'int1': {'tbl1'}, 'int2': {'tbl2'}}, []),
+    'cte-unused-named-like-table': ("WITH tbl1 AS (SELECT b FROM {B}.tbl2) SELECT a FROM {A}.tbl1 AS t JOIN {B}.tbl3 AS u ON t.id = u.id", {'int1': {'tbl1'}, 'int2': {'tbl3'}}, []),
     'two-models': ("SELECT * FROM {A}.tbl1 AS t JOIN {M}.pred AS m JOIN {P}.pred2 AS m2", {'int1': {'tbl1'}}, [('mindsdb', ['pred']), ('proj', ['pred2'])]),
     'select-from-model': ("SELECT p FROM {M}.pred WHERE x = 1", {}, [('mindsdb', ['pred'])]),
     'ts-model-join': ("SELECT * FROM {A}.tbl1 AS t JOIN {M}.tspred AS m WHERE t.ts > LATEST", {'int1': {'tbl1'}}, [('mindsdb', ['tspred'])]),
